@@ -306,7 +306,9 @@ def py_tzif_encode_block(tb, w, rng):
     out = struct.pack(">6l", nut, nstd, 0, len(tb.trans), k, len(abbr))
     out += b"".join(struct.pack(">l" if w == 4 else ">q", u) for (u, i) in tb.trans)
     out += bytes(i for (u, i) in tb.trans)
-    out += b"".join(struct.pack(">lBB", o, rng.randrange(2), 0) for o in tb.offs)
+    # ttinfo: a random isdst byte and a random designation index inside the designation table per type
+    # (C20_tzif_reads_rfc8536 quantifies over both bytes; the reader must ignore them)
+    out += b"".join(struct.pack(">lBB", o, rng.randrange(2), rng.randrange(len(abbr))) for o in tb.offs)
     return out + abbr + bytes(rng.randrange(2) for _ in range(nstd)) + bytes(rng.randrange(2) for _ in range(nut))
 
 
